@@ -130,7 +130,7 @@ def run(out: Outcome, drv):
                     cases.append(fx.refresh(c))
         for _ in range(n):
             cases.append(gen.GENERATORS[fn](rng, maxn))
-        items = []
+        items = [it for it in fx.corpus_items("C01") if it[0]["fn"] == fn]
         for c in cases:
             cars = CARRIERS.get(fn, CARRIERS["default"])
             items.append((c, rng.choice(cars), rng.choice(TCARRIERS), rng.choice(["list", "tuple"])))
